@@ -2,14 +2,14 @@ SPECIFICATION Spec
 CONSTANTS
   Nib = {0, 1}
   KeyLen = 2
-  Names = {"a"}
+  Names = {"a", "s"}
   Main = {"a"}
-  Opts <- OptsQuick
+  Opts <- OptsAS
   MaxMaj = 3
   MaxMin = 1
   MaxForks = 0
   MaxTouch = 1
-  InitConts <- InitA1
+  InitConts <- InitAS
   InFlightReads = FALSE
   AlignedOnly = TRUE
 INVARIANT RetainedReadable
